@@ -91,9 +91,16 @@ def C49(ctx):
     for cls in LIMIT_CLASSES + ["success", "AppPanic"]:
         if by_cls[cls] == 0:
             raise ToolError("vacuous case universe: no case whose expected outcome is " + cls)
+    # every limit's error class and every op kind in BOTH transaction shapes; the boundary families are
+    # enumerated by TLC from the model alone (no seed), identically in both tiers
     for m in ("fee", "nofee"):
-        if not any(c["mode"] == m for c in cases):
-            raise ToolError("no case in mode " + m)
+        cm = collections.Counter(c["exp"]["err"] or "success" for c in cases if c["mode"] == m)
+        for cls in LIMIT_CLASSES + ["success", "AppPanic"]:
+            if cm[cls] == 0:
+                raise ToolError("vacuous case universe: no %s case whose expected outcome is %s" % (m, cls))
+        kinds = {o["op"] for c in cases if c["mode"] == m for o in c["prog"]}
+        if kinds != {"call", "ret", "emit", "log", "write", "alloc", "panic"}:
+            raise ToolError("case universe of mode %s lacks op kinds: %s" % (m, kinds))
     ctx.sample({"case": next(c for c in cases if c["exp"]["err"] == "CallDepth" and c["mode"] == "fee")})
     ctx.sample({"case": next(c for c in cases if c["exp"]["err"] == "TrackBytes" and len(c["prog"]) > 2)})
     ctx.sample({"case": next(c for c in cases if c["exp"]["status"] == "success" and len(c["prog"]) > 3)})
@@ -116,8 +123,15 @@ def C49(ctx):
     for e in evs:
         if "harness_error" in e:
             raise ToolError("harness could not realise a random program: %s" % json.dumps(e)[:300])
-    if len(evs) != n + units:
-        raise ToolError("limits record produced %d events" % len(evs))
+    nrun = sum(1 for e in evs if e["a"] == "run")
+    unit_evs = [e for e in evs if e["a"] == "unit"]
+    if nrun != n or len(unit_evs) < units + 100:
+        raise ToolError("limits record produced %d runs, %d unit sequences" % (nrun, len(unit_evs)))
+    # the deterministic boundary block of the unit level (first unit events) answers with every class
+    ucls = collections.Counter(o["r"] for e in unit_evs[:len(unit_evs) - units] for o in e["obs"])
+    for cls in ("ok", "KeySize", "ValueSize", "HeapBytes", "TrackBytes"):
+        if ucls[cls] == 0:
+            raise ToolError("unit-level boundary sequences never answered " + cls)
     ctx.sample({"trace_event": next(e for e in evs if e["a"] == "run" and e["obs"]["status"] == "failure")})
     ctx.sample({"trace_event": next(e for e in evs if e["a"] == "unit" and len(e["calls"]) > 4)})
     bad = validate_calls("Limits", "TraceLimits", evs, "%s-%d" % (ctx.pid, os.getpid()), chunks=4 if q else 12,
@@ -165,7 +179,8 @@ def C49(ctx):
                     "(protocol default configuration at its real values) with the expected outcome (status, error class, index "
                     "of the failing op); each case executed on a LedgerSimulator through a native test blueprint under "
                     "SystemOverrides.limit_parameters. T: %d seeded random programs under random tight configurations and %d "
-                    "seeded LimitsModule call sequences (process_io_access / process_substate_key / process_substate_value) "
+                    "seeded LimitsModule call sequences (process_io_access / process_substate_key / process_substate_value) plus, in every tier, the full "
+                    "unit-level boundary product (key kind x key/value/heap/track limit x one below/at/one above x reached by insert / update / re-insert after removal / two entries / with the other counter at its limit) "
                     "validated by TraceLimits.tla (observed outcome = Outcome; a successful run shows exactly the program's events and logs "
                     "and every count/size within the configured limits). distinct = distinct (shape, configuration, program) cases + distinct recorded runs"
                     % (4 if q else 5, "" if q else "; all ordered triples", n, units)}
@@ -312,10 +327,15 @@ def C05(ctx):
     hsum, ssum = hist[-1], scen[-1]
     if hsum.get("a") != "summary" or ssum.get("a") != "summary" or hsum["commits"] < runs * ln or ssum["commits"] < 100:
         raise ToolError("graph recording incomplete")
-    needed = ["success:", "failure:CallFrame:WriteSubstateError.ProcessSubstateError.CantDropNodeInStore", "failure:Kernel:OrphanedNodes"]
+    # non-vacuity, independent of the seed (the catalogue of run 0): every refusal class and every node operation
+    needed = ["success:", "failure:CallFrame:WriteSubstateError.ProcessSubstateError.CantDropNodeInStore", "failure:Kernel:OrphanedNodes",
+              "failure:CallFrame:WriteSubstateError.SubstateDiffError.ContainsDuplicateOwns", "failure:AppPanic", "failure:System:TypeCheckError"]
     for k in needed:
         if not hsum["outcomes"].get(k):
             raise ToolError("seeded histories never produced outcome " + k)
+    for k in ("NewObj", "NewKv", "NewVault", "Nest", "PutInKv", "StoreInField", "StoreInKv", "StoreRef", "Drop", "Globalize"):
+        if not hsum.get("ops_ok", {}).get(k):
+            raise ToolError("no successful transaction of the seeded histories used node operation " + k)
     allev = hist + scen + big
     ctx.sample({"trace_event": next(e for e in hist if e["a"] == "commit" and len(e["upd"]) >= 3)})
     ctx.sample({"trace_event": next(e for e in scen if e["a"] == "commit" and len(e["upd"]) >= 2)})
@@ -337,7 +357,7 @@ def C05(ctx):
                     "after every accepted call%s. T: after EVERY committed transaction of %d seeded histories x %d transactions "
                     "(accounts, resources, transfers, preallocated accounts, and a native test blueprint that creates, nests, stores into "
                     "fields / KV entries / heap KV stores, drops, globalizes objects, stores references, duplicates owns, removes stored "
-                    "owns, leaks nodes and panics half-way) and of the repository's transaction scenarios (genesis -> latest protocol, %s) "
+                    "owns, leaks nodes and panics half-way; run 0 starts with a fixed catalogue of 25 programs covering every operation and every refusal) and of the repository's transaction scenarios (genesis -> latest protocol, %s) "
                     "the harness walks the whole database and logs the graph; TraceNodeGraph.tla evaluates UniqueOwner, RefsGlobal, HasState, "
                     "EntityTypeMatches, NoCycles in every state. distinct = distinct structural graph changes"
                     % (5 if q else 6, "" if q else "; three models with one rule switched off each violate the expected invariant",
